@@ -74,7 +74,7 @@ Init ==
                                outSeq |-> 0, commitSeq |-> 0, lock |-> 0]]
   /\ wk = [b \in Batchers |-> [k \in Workers |-> IdleWorker]]
   /\ nfail = 0
-  /\ obs = ObsNew([cap |-> Capacity, batch |-> BatchCount, dqbatch |-> BatchCount, retry |-> Retry, dq |-> HasDQ])
+  /\ obs = ObsNew([cap |-> Capacity, batch |-> BatchCount, dqbatch |-> BatchCount, retry |-> Retry, dq |-> HasDQ, gaps |-> FALSE])
   /\ sched = <<>>
 
 -----------------------------------------------------------------------------
@@ -316,7 +316,7 @@ CommitOne(b, k) ==
   /\ wk[b][k].pc = "commit"
   /\ wk[b][k].i <= Len(wk[b][k].ids)
   /\ LET e == wk[b][k].ids[wk[b][k].i]
-         f == Finalize(e, TRUE, TRUE, b, st, charged, inUse, OBatchCommit(obs, b, e))
+         f == Finalize(e, TRUE, TRUE, b, st, charged, inUse, OBatchCommit(obs, b, e, FALSE))
      IN /\ st' = f[1] /\ charged' = f[2] /\ inUse' = f[3] /\ obs' = f[4]
   /\ wk' = [wk EXCEPT ![b][k].i = @ + 1]
   /\ UNCHANGED <<lines, rd, seqOf, pr, bt, nfail, sched>>
